@@ -254,9 +254,60 @@ class Gen:
     }
     KIND_OF = {v: k for k, v in COST_CLASS.items()}
 
+    SCORER_SLOTS = {
+        "PELT": [("cost", ("cost_opt", "cost_fix"), None)],
+        "MovingWindow": [("change_score", ("cost_opt", "cost_fix", "change_score"), None)],
+        "SeededBinarySegmentation": [("change_score", ("cost_opt", "cost_fix", "change_score"), None)],
+        "CircularBinarySegmentation": [("anomaly_score", ("cost_opt", "cost_fix", "local"), None)],
+        "CAPA": [("collective_saving", ("cost_fix", "saving"), None), ("point_saving", ("cost_fix", "saving"), ("l2", "ad"))],
+        "MVCAPA": [("collective_saving", ("cost_fix", "saving"), ("l2", "gv", "ad")), ("point_saving", ("cost_fix", "saving"), ("l2", "ad"))],
+    }
+
+    def category_of(self, obj):
+        cn = type(obj).__name__
+        try:
+            if cn in self.KIND_OF:
+                return ("cost_fix" if obj.param is not None else "cost_opt", self.KIND_OF[cn])
+            if cn in ("CUSUM", "ChangeScore"):
+                return ("change_score", None)
+            if cn == "L2Saving":
+                return ("saving", "l2")
+            if cn == "Saving":
+                return ("saving", self.KIND_OF.get(type(obj.baseline_cost).__name__))
+            if cn == "LocalAnomalyScore":
+                return ("local", None)
+        except Exception:  # noqa: BLE001
+            pass
+        return (None, None)
+
+    def swap_scorer_step(self, sim, i):
+        """set_params that replaces a detector's scorer object: by a scorer another
+        client holds (sharing changes during the history) or by a new private one."""
+        r = self.rng
+        cl = sim.clients[i]
+        slots = self.SCORER_SLOTS.get(cl.kind)
+        if not slots:
+            return None
+        pname, cats, kinds = self.choice(slots)
+        cands = []
+        for c in sim.clients:
+            if not c.is_det:
+                cat, kind = self.category_of(c.obj)
+                if cat in cats and (kinds is None or kind in kinds):
+                    cands.append(c.name)
+        if cands and r.random() < 0.7:
+            return {"op": "set_params", "c": i, "path": pname, "value": {"__ref__": self.choice(cands)}}
+        fixed = "cost_opt" not in cats
+        _, sp = self.new_cost(list(kinds or ("l2", "gv")), fixed=fixed)
+        return {"op": "set_params", "c": i, "path": pname, "value": sp}
+
     def set_params_step(self, sim, i):
         r = self.rng
         cl = sim.clients[i]
+        if cl.is_det and r.random() < 0.12:
+            st = self.swap_scorer_step(sim, i)
+            if st is not None:
+                return st
         # collect candidate paths: own numeric, nested cost params
         paths = []
         own = self.OWN_MENU.get(cl.kind, [])
